@@ -271,8 +271,9 @@ impl<const LEVELS: usize> OrderBook<LEVELS> {
     /// Get current mid-price (as a float)
     pub fn mid_price(&self) -> f64 {
         let (bid, ask) = self.bid_ask();
-        let spread = ask - bid;
-        f64::from(bid) + 0.5 * f64::from(spread)
+        // Book can be crossed (no-trading periods) so take the difference as floats
+        let spread = f64::from(ask) - f64::from(bid);
+        f64::from(bid) + 0.5 * spread
     }
 
     /// Get current level 1 market data
